@@ -253,6 +253,9 @@ func main() {
 
 	// ---------- native confirmation ----------
 	replayDir := filepath.Join(verifDir, "replays", *prop)
+	if d := os.Getenv("VERIF_REPLAY_DIR"); d != "" {
+		replayDir = filepath.Join(d, *prop)
+	}
 	os.MkdirAll(replayDir, 0o755)
 	if *only == "" {
 		if old, _ := filepath.Glob(filepath.Join(replayDir, "*.json")); old != nil {
@@ -435,9 +438,16 @@ func main() {
 		"time.Time is an abstract instant in [1678,2262] or the zero Time; locations and monotonic readings are outside the model",
 	}, pc.Assumptions...)
 	ev["assumptions"] = assumptions
-	os.MkdirAll(filepath.Join(verifDir, "evidence"), 0o755)
-	eb, _ := json.MarshalIndent(ev, "", " ")
-	if err := os.WriteFile(filepath.Join(verifDir, "evidence", *prop+".json"), eb, 0o644); err != nil {
+	evDir := filepath.Join(verifDir, "evidence")
+	if d := os.Getenv("VERIF_EVIDENCE_DIR"); d != "" {
+		evDir = d // runs against scratch trees (seeded changes) must not touch the real evidence
+	}
+	os.MkdirAll(evDir, 0o755)
+	eb, merr := json.MarshalIndent(ev, "", " ")
+	if merr != nil {
+		fatal(2, "evidence: %v", merr)
+	}
+	if err := os.WriteFile(filepath.Join(evDir, *prop+".json"), eb, 0o644); err != nil {
 		fatal(2, "evidence: %v", err)
 	}
 
